@@ -8,8 +8,8 @@ CONSTANTS
   NamePool = 0
   Uninits = {FALSE}
   AllowBad = FALSE
-  MaxData = 5
-  MaxVariants = 4
+  MaxData = 6
+  MaxVariants = 5
   MaxAddsPerVariant = 3
   CheckConvert = FALSE
 VIEW ViewCurrent
